@@ -154,7 +154,9 @@ def run(tier):
         "SignHashed on streams whose first candidates are solved to hit each rejection rule (k >= n, k = 0, r = 0, "
         "r + k = n, s = 0) alone and in every order of two (thorough: three) before a valid nonce, digests solved so "
         "that r, s or r+s has 1..4 leading zero bytes, key classes (0, 1, n-2, n-1, n, n+1, 2^256-1, empty, short, "
-        "33 and 64 bytes), seeded random; TLC recomputes (r, s, error, bytes consumed) with module SM2 on the SM2 curve",
+        "33 and 64 bytes), nonces and keys on the ACCEPTING side of each bound (1, 2, n-1, n-2, powers of two) and "
+        "word-structured values (limbs of 64/32/16/8 bits with zero halves, single bits, all-ones) on both sides, x1 "
+        "injected through the verification hook, seeded random; TLC recomputes (r, s, error, bytes consumed) with module SM2 on the SM2 curve",
         ["TLC; SM2.tla/EC.tla model-checked on a toy curve (group axioms, sign/verify round trip, rule coverage)",
          "BigNat/EC Java accelerators, compared with the pure TLA+ definitions on every run",
          "digests are 32 bytes; keys/nonces sampled beyond the solved classes"])
